@@ -104,7 +104,11 @@ def find_lexicons(
     cur = connect().cursor()
     found = False
     for specifier in lexicon.split():
-        limit = '-1' if '*' in lexicon else '1'
+        # a specifier without a star selects a single lexicon: the one
+        # with that id and version or, if only an id is given, the most
+        # recently added one with that id
+        limit = '-1' if '*' in specifier else '1'
+        order = '' if '*' in specifier else 'ORDER BY rowid DESC'
         if ':' not in specifier:
             specifier += ':*'
         query = f'''
@@ -113,6 +117,7 @@ def find_lexicons(
               FROM lexicons
              WHERE id || ":" || version GLOB :specifier
                AND (:language ISNULL OR language = :language)
+             {order}
              LIMIT {limit}
         '''
         params = {'specifier': specifier, 'language': lang}
